@@ -491,23 +491,30 @@ def r4_model_loop(ctx):
         ctx.check(allg, c + "#iter", "iterates self.models with an enabled guard" if allg else "iterates self.models: disabled models are executed", where=run, node=lp.iter)
     else:
         ctx.fail(c + "#iter", f"model loop iterates {norm(itx)} {br}", where=run, node=lp.iter)
-    # exactly one direct call model(detector) per iteration on non-exceptional paths
+    # exactly one direct call model(detector) per iteration for an enabled model, none for a disabled
+    # one - decided per path through one iteration (sa/paths.py)
+    from sa.paths import enumerate_paths
+
     direct = [cl for _, _, cl in model_calls if isinstance(cl.func, ast.Name)]
     indirect = [cl for _, _, cl in model_calls if not isinstance(cl.func, ast.Name)]
     for cl in indirect:
         ctx.fail(c + "#bypass", f"model function invoked through {norm(cl.func)} bypassing ModelFunction.__call__", where=run, node=cl)
-    ev_nodes = [n for n in g.nodes if n.ast is not None and n.kind in ("stmt",) and any(contains(n.ast, cl) for cl in direct) and not isinstance(n.ast, (ast.For, ast.If, ast.While, ast.Try, ast.With))]
-    lo, hi = g.count_events_per_iteration(header, ev_nodes)
-    ctx.check(
-        (lo, hi) == (1, 1),
-        c + "#once",
-        "model(detector) executes exactly once per enabled model"
-        if (lo, hi) == (1, 1)
-        else f"model(detector) executes between {lo} and {hi} times per enabled model",
-        where=run,
-        node=direct[0] if direct else lp,
-        facts={"min": lo, "max": hi},
-    )
+    lo = hi = None
+    for q in enumerate_paths(lp.body):
+        if q.exit == "raise":
+            continue
+        ncalls = len(q.called(v))
+        en = q.holds(f"{v}.enabled")
+        want = 1 if (iter_self or en is True) else 0
+        if iter_models and en is None:
+            want = -1  # neither branch of an enabled test: the model runs whether enabled or not
+        lo = ncalls if lo is None else min(lo, ncalls)
+        hi = ncalls if hi is None else max(hi, ncalls)
+        if q.exit in ("break", "return"):
+            ctx.fail(c + "#exit", f"{q.exit} in the model loop ends the group early (path {q.cond_texts()})", where=run, node=q.exit_node)
+        if ncalls != want:
+            ctx.fail(c + "#once", f"model(detector) executes {ncalls} time(s) on the path {q.cond_texts()} (expected {max(want, 0)}{' - no enabled test on this path' if want < 0 else ''})", where=run, node=q.exit_node or (direct[0] if direct else lp), facts={"calls": ncalls})
+    ctx.check(hi == 1 and (lo == 1 or iter_models), c + "#once", "model(detector) executes exactly once per enabled model" if hi == 1 else f"model(detector) executes between {lo} and {hi} times per model", where=run, node=direct[0] if direct else lp, facts={"min": lo, "max": hi})
     for cl in direct:
         ts = enclosing_tests(cl, stop=lp)
         dep = [norm(t) for t, _ in ts if "debug" in names_in(t)]
@@ -516,13 +523,6 @@ def r4_model_loop(ctx):
         a0 = cl.args[0] if cl.args else kw(cl, "detector")
         aok = a0 is not None and dotted(expand(run, a0)) == "detector" and len(cl.args) + len(cl.keywords) == 1
         ctx.check(aok, c + "#arg", "model(detector)" if aok else f"model called as {norm(cl)}", where=run, node=cl)
-    for n in loop_exits(lp):
-        if isinstance(n, (ast.Break, ast.Return, ast.Continue)):
-            # continue/break/return before the model call skips models
-            if n.lineno <= max(cl.lineno for cl in direct):
-                ctx.fail(c + "#exit", f"{type(n).__name__.lower()} in the model loop before the model call", where=run, node=n)
-            elif isinstance(n, (ast.Break, ast.Return)):
-                ctx.fail(c + "#exit", f"{type(n).__name__.lower()} in the model loop ends the group early", where=run, node=n)
 
 
 def _disj(t):
@@ -539,7 +539,7 @@ def r5_call_shape(ctx):
         raise AnalysisError("ModelFunction.__call__ not found")
     c = f"{MF}.__call__"
     det = call.params[1] if len(call.params) > 1 else "detector"
-    fcalls = [cl for cl in calls_in(call.node) if dotted(cl.func) in ("self.func", "self._func")]
+    fcalls = [cl for cl in calls_in(call.node) if dotted(expand(call, cl.func)) in ("self.func", "self._func")]
     if len(fcalls) != 1:
         ctx.fail(c, f"{len(fcalls)} invocations of the model function (expected exactly one)", where=call, node=fcalls[1] if len(fcalls) > 1 else call.node)
         return
@@ -559,7 +559,7 @@ def r5_call_shape(ctx):
         where=call,
         node=cl,
     )
-    if dotted(cl.func) == "self.func":
+    if dotted(expand(call, cl.func)) == "self.func":
         fg = ci.getters.get("func")
         if fg is None:
             raise AnalysisError("ModelFunction.func not found")
